@@ -236,7 +236,7 @@ def param_cases(draw, name, tier):
         case['m'] = draw(st.integers(0, 3))
         case['x'] = draw(gen.utpm_data(D, P, shape, R((0.4, 5)), mag=0.5))
     else:
-        case['a'] = draw(st.sampled_from([0.5, 1.0, 1.5, 2.0, 2.5]))
+        case['a'] = draw(st.sampled_from([0.5, 1.0, 1.5, 2.0, 2.5, -0.5, -1.5]))      # (negative non-integer a: the rising factorial (a)_n changes sign)
         case['b'] = draw(st.sampled_from([0.5, 1.5, 2.5, 0.75, 3.25]))
         case['x'] = draw(gen.utpm_data(D, P, shape, R((0.5, 4)), mag=0.5))
     if P > 1 and draw(st.integers(0, 3)) == 0:
